@@ -443,7 +443,6 @@ func (w *World) nextBlock(r *vf.Rng, o *Obs, num uint64) BlockIn {
 
 const (
 	whatDropped = "a staking period ended with no online stake: distributeRewards returned 'empty stake', the pending transactions never took effect and their detained deposits vanish with the staking trie"
-	whatNegRec  = "a delegation-sub after a validator withdraw makes the pending total of the validator negative: the record cannot be RLP-encoded, updateStakingTrie aborts inside a map iteration and pending records are lost nondeterministically"
 	whatRefund = "gas refund credited to the sender is also counted in the block's gas rewards (supply grows by refund*price)"
 	whatDust   = "a validator deleted at the end of a block takes its undistributed rewards residue with it (supply shrinks by the residue)"
 )
@@ -584,9 +583,7 @@ func runHistory(h *History, r *vf.Rng, more int, res *vf.Result) *Run {
 		}
 		if out.Crashed != "" {
 			h.Blocks = h.Blocks[:i+1]
-			if strings.HasPrefix(out.Crashed, "dberr: rlp: cannot encode negative") {
-				run.Hits = append(run.Hits, Hit{What: whatNegRec, Block: out.Number})
-			} else if strings.HasPrefix(out.Crashed, "dberr") {
+			if strings.HasPrefix(out.Crashed, "dberr") { // e.g. a record that cannot be RLP-encoded (regression of b5e8f5d)
 				run.Hits = append(run.Hits, Hit{What: "state database error: " + out.Crashed, Block: out.Number})
 			}
 			break
@@ -759,6 +756,9 @@ func gen(seed uint64, n int, outDir, corpusDir string) {
 	}
 	for _, h := range loadCorpus(corpusDir) {
 		run := runHistory(h, r, 0, res)
+		if again := runHistory(h, r, 0, nil); !sameOutcome(run, again) {
+			run.Hits = append(run.Hits, Hit{What: "two executions of the same history end in different states (nondeterministic block execution)", Block: uint64(run.Blocks)})
+		}
 		addRun(run, h)
 		res.Count("corpus")
 	}
@@ -782,6 +782,21 @@ func gen(seed uint64, n int, outDir, corpusDir string) {
 	res.Extra["block_transitions"] = blocks
 	res.Rule = "a case is one chain: random version-5 parameter table (period 4-8, small stake thresholds, any commission/risk rates), random genesis, then 2-16 staking periods of blocks generated adaptively from the implementation's previous dump (transfers, contract calls incl. one that earns a gas refund, all nine staking messages with boundary amounts, wrong nonces/gas/operators, malformed payloads, double-sign evidences current/future/old, any proposer); after every block the committed state is re-opened and compared field by field with the model state; distinct = number of block transitions executed"
 	res.Write(filepath.Join(outDir, "result.json"))
+}
+
+// sameOutcome compares the last dumps (or crash messages) of two runs of one history.
+func sameOutcome(a, b *Run) bool {
+	if a.Blocks != b.Blocks || a.Blocks == 0 {
+		return a.Blocks == b.Blocks
+	}
+	x, y := a.Outs[a.Blocks-1], b.Outs[b.Blocks-1]
+	if (x.Crashed == "") != (y.Crashed == "") {
+		return false
+	}
+	if x.Crashed != "" {
+		return true
+	}
+	return obsCoq(x.Obs) == obsCoq(y.Obs)
 }
 
 func min(a, b int) int {
@@ -811,6 +826,9 @@ func replay(file string) {
 		}
 	}
 	run := runHistory(h, vf.NewRng(1), 0, nil)
+	if again := runHistory(h, vf.NewRng(1), 0, nil); !sameOutcome(run, again) {
+		run.Hits = append(run.Hits, Hit{What: "two executions of the same history end in different states (nondeterministic block execution)", Block: uint64(run.Blocks)})
+	}
 	for _, o := range run.Outs {
 		if o.Crashed != "" {
 			fmt.Printf("block %d: implementation stopped: %s\n", o.Number, o.Crashed)
